@@ -349,6 +349,42 @@ def rule_r6(chk, facts, P):
         raise AnalysisBroken('only %d PushLocHandle(-1) sites found' % n_)
 
 
+USER_NAME_FIELDS = {'sCToken.Name', 'sStructElem.pElemName', 'sStructElem.pRefElemName', 'sStructStack.Name', 'sSymbolStack.Name',
+                    'tag_TForwardSymbol.Name', 'tag_TFunction.Name', 'tag_TTransTable.Name', 'tag_TTree.Name',
+                    'tag_TExportEntry.Name'}
+
+
+def rule_r7(chk, facts, P):
+    chk.rule('C13-R7', 'a stored user-defined name (section name via GetSectionName(), symbol/function/structure/stack names) '
+             'is compared case-insensitively only on paths where CaseSensitive is known to be off: letter case is folded '
+             'by the CaseSensitive-guarded up-casing of the looked-up name, never by the comparison itself (with -U '
+             '"Mod" and "MOD" are different sections)', min_instances=10)
+    n_ = 0
+    for f in P.all_funcs():
+        if is_generator_unit(f.unit.name):
+            continue
+        for b, i, ln, c in f.calls({'as_strcasecmp', 'as_strncasecmp', 'strcasecmp', 'strncasecmp', 'strcmp', 'strncmp'}):
+            stored = None
+            for a in c[2]:
+                x = nocast(a)
+                if x[0] == 'call' and callee_name(x) == 'GetSectionName':
+                    stored = 'GetSectionName()'
+                for m in walk(a):
+                    if isinstance(m, (list, tuple)) and len(m) > 2 and m[0] == 'm' and m[2] in USER_NAME_FIELDS:
+                        stored = m[2]
+            if stored is None:
+                continue
+            n_ += 1
+            ci = 'case' in callee_name(c)
+            ok = (not ci) or f.guarded(b, i, lambda l: edge_has_atom(l, lambda a: a[0] == 'z' and a[1] == ('g', 'CaseSensitive')))[0]
+            chk.ob('C13-R7', '%s:%s:%s(%s)' % (f.unit.name, f.name, callee_name(c), stored), ok, f.loc(ln),
+                   'exact comparison' if not ci else 'case-insensitive only with CaseSensitive off' if ok else
+                   '%s() compares against the stored user-defined name %s although CaseSensitive may be on: with -U two '
+                   'names that differ only in letter case are taken for the same' % (callee_name(c), stored))
+    if n_ < 12:
+        raise AnalysisBroken('only %d comparisons against stored user-defined names found' % n_)
+
+
 def rule_r5(chk, facts, P):
     chk.rule('C13-R5', 'asmpars.c/asmallg.c: a loop that walks the chain of open sections (innermost first) or a '
              'FORWARD/PUBLIC list and compares names stops at the first match: the edge on which the comparison '
@@ -395,5 +431,6 @@ def run(chk, facts, info):
     rule_r3(chk, facts, P)
     rule_r4(chk, facts, P)
     rule_r6(chk, facts, P)
+    rule_r7(chk, facts, P)
     chk.note('Decided: case folding before keyed lookups/inserts, local-before-global lookup order, redefinition guards, '
              'balance of global-scope escapes. Not decided: section-tree resolution results, temporary-symbol binding.')
